@@ -179,7 +179,11 @@ func (c *shardedMapOf[V]) ExpireAll(ctx context.Context) {
 		b := &c.hashedBuckets[i]
 		b.Lock()
 		for h, v := range b.data {
-			atomic.StoreInt64(&v.E, startTS)
+			// Entry that has expired already keeps its expiration time.
+			if e := atomic.LoadInt64(&v.E); e == 0 || e > startTS {
+				atomic.StoreInt64(&v.E, startTS)
+			}
+
 			b.data[h] = v
 			cnt++
 		}
